@@ -411,6 +411,126 @@ def main():
                         ck.violation('type-a-crc-good-rejected:' + mod, 'a Type A response with the right CRC_A is not returned', 
                                      {'driver': mod, 'sel_res': '%02x' % sel, 'rf_frame': hx(rf), 'result': r})
 
+    # ------------------------------------------------------------------ every frame of whole driver sessions
+    # The property speaks of EVERY frame a driver writes, not only those built by Chipset.command: the real drivers are
+    # initialised (init() where it exists), used and closed on the host-link fakes of harness/sim/chipsets.py (the
+    # C13 builder's simulators, used read-only); every transport write is recorded at class level and validated
+    # independently; pn532.init() is also run over a serial line for each baud rate `stty` may accept.
+    import os as _os
+    from sim import chipsets as _cs
+    from sim import c13_world as _W
+    session_log = []
+    _orig_writes = {}
+
+    def _rec(cls):
+        orig = cls.write
+        _orig_writes[cls] = orig
+
+        def w(self, frame):
+            session_log.append(bytes(frame))
+            return orig(self, frame)
+        cls.write = w
+    for _c in (_cs.Pn53xSim, _cs.Acr122Sim, _cs.Rcs380Sim):
+        _rec(_c)
+
+    def pn_ok(f):
+        if f.lstrip(b'\x00') == b'\xff\x00\xff\x00'[0:4].lstrip(b'\x00') or f.lstrip(b'\x00') == b'\xff\x00\xff\x00':
+            return True                                  # ACK (any preamble length)
+        g = b'\x00\x00' + f.lstrip(b'\x00')
+        body = frame_valid(g)
+        return body is not None and len(body) >= 2 and body[0] == 0xD4
+
+    def rcs_ok(f):
+        if f == b'\x00\x00\xff\x00\xff\x00':
+            return True
+        if len(f) < 11 or f[:5] != b'\x00\x00\xff\xff\xff':
+            return False
+        n = f[5] + 256 * f[6]
+        return ((f[5] + f[6] + f[7]) % 256 == 0 and len(f) == n + 10 and (sum(f[8:8 + n]) + f[8 + n]) % 256 == 0
+                and f[9 + n:] == b'\x00' and n >= 2 and f[8] == 0xD6)
+
+    def acr_ok(f):
+        if len(f) < 10 or int.from_bytes(f[1:5], 'little') != len(f) - 10:
+            return False                                 # CCID header: bMessageType, dwLength (LE), 5 more bytes
+        apdu = f[10:]
+        if f[0] == 0x6F and apdu[:4] == b'\xff\x00\x00\x00':  # pseudo APDU carrying a PN532 command
+            return len(apdu) >= 7 and apdu[4] == len(apdu) - 5 and apdu[5] == 0xD4
+        return True
+
+    def session(label, make):
+        del session_log[:]
+        try:
+            w_ = make()
+        except Exception as e:   # noqa  (a driver that cannot be initialised on the fake is reported by C13, not here)
+            ck.count('session-not-started:' + label)
+            return
+        try:
+            w_.activate()
+            try:
+                w_.clf.sense(nfc.clf.RemoteTarget('106A'), nfc.clf.RemoteTarget('212F'), nfc.clf.RemoteTarget('106B'), iterations=1)
+            except Exception:   # noqa
+                pass
+            try:
+                w_.clf.close()
+            except Exception:   # noqa
+                pass
+        finally:
+            pass
+        return w_
+
+    def judge(label, ok, sim, arygon=False):
+        frames = list(session_log)
+        for f in frames:
+            g = f
+            if arygon:
+                if g[:1] == b'0' and all(32 <= c < 127 for c in g):
+                    continue          # ASCII command to the Arygon microcontroller ('0av', '0au' ...), not a PN53x frame
+                if g[:1] != b'2':
+                    ck.violation('session-frame-malformed:' + label, 'driver wrote a frame without the Arygon protocol byte', {'driver': label, 'frame': hx(f)})
+                    continue
+                g = g[1:]
+            good = ok(g)
+            ck.case(('session', label, g), True, None)
+            ck.count('session-frame:' + label)
+            if not good:
+                ck.violation('session-frame-malformed:' + label, 'a frame written by the driver during init/use/close is not well formed',
+                             {'driver': label, 'frame': hx(f), 'frames_of_the_session': [hx(x) for x in frames][-12:]})
+        # (the simulator strips the Arygon protocol byte before it records, so its list is only used for the other drivers)
+        bad = [] if (arygon or sim is None) else list(sim.bad_commands)
+        if bad:
+            ck.violation('session-frame-malformed:' + label, 'the chip simulator could not parse a frame written by the driver',
+                         {'driver': label, 'frame': hx(bad[0])})
+
+    try:
+        for drv in [d for d in _W.DRIVERS if d != 'udp']:
+            for layer in ('api', 'phys'):
+                w_ = session(drv + '/' + layer, lambda: _W.World(drv, layer))
+                if w_ is None:
+                    continue
+                judge(drv, acr_ok if drv == 'acr122' else rcs_ok if drv == 'rcs380' else pn_ok, w_.sim, arygon=drv.startswith('arygon'))
+        import nfc.clf.pn532 as _p532
+        real_system = _os.system
+        for ok_baud in (921600, 460800, 230400, 115200):
+            del session_log[:]
+            clock = _cs.VClock()
+            _cs.install_clock(clock, _W.DRIVER_MODULES)
+            sim = _cs.Pn53xSim('pn532', clock, tty=True)
+            sim.TYPE, sim.port = 'TTY', '/dev/ttyS9'
+            _os.system = lambda cmd, ok_baud=ok_baud: 0 if int(cmd.split()[3]) <= ok_baud else 1
+            try:
+                dev = _p532.init(sim)
+                dev.close()
+            except IOError as e:
+                ck.count('pn532-init-ioerror:%d' % ok_baud)
+                if sim.bad_commands:
+                    pass
+            finally:
+                _os.system = real_system
+            judge('pn532-init-%d' % ok_baud, pn_ok, sim)
+    finally:
+        for cls, orig in _orig_writes.items():
+            cls.write = orig
+
     # ------------------------------------------------------------------ model run + compare
     out = mr.run(lines)
     nmis = 0
